@@ -30,7 +30,7 @@ PROP = dict(
          "order-preserving permutation and every form; 30k random packets (thorough 600k) of all versions with random "
          "property sets, up to 6 permutations each, incl. a share of server-to-client packets and deliberately "
          "not-permitted encodings (correspondence only). non-trivial = stream accepted by the reference decoder as a "
-         "client packet; distinct = distinct case lines",
+         "client packet; distinct = distinct case lines. Every valid special code point (U+FFFD, U+FEFF, encoding-length boundaries, noncharacters, U+10FFFF) in every string field of every client packet type.",
     exhaustive=False,
     modelled="packets/fixedheader.go Decode, codec.go DecodeLength and decode*, properties.go Decode, packets.go all "
              "*Decode methods, the type switch of clients.go ReadPacket",
